@@ -12,6 +12,11 @@ requests, where the real interpreter's `last_err_location()` is compared field b
 * `runtime_error_ip`   — an instruction that fails does not move the instruction pointer, whatever
                           it did before failing; so `debug_map[ip]` after the failure is the token of the
                           failing instruction, also inside called definitions and loops;
+* `runtime_error_names_its_token` — end to end for the structured fragment (through C01's `source_means_what_it_says`):
+                          compile the tokens with the flow-stack compiler, run; when the structural evaluator says
+                          "the word at token `tok` fails with `e`", the VM fails with `e` and the debug-map entry
+                          under the instruction pointer *after* the failure — what `last_err_location` reads — is
+                          `tok`: inside conditionals, loops, case arms, called definitions, recursion;
 * `location_spec` (Props/C17loc.lean, by the lexer layer) — line, column and quoted line computed
                           from a token's byte offset are the true position of that token for any
                           mix of LF / CRLF / CR, tabs and multi-byte characters.
@@ -19,6 +24,8 @@ requests, where the real interpreter's `last_err_location()` is compared field b
 import XehModel.Proofs.CompileOrigin
 import XehModel.Proofs.VMRev2
 import XehModel.Props.C17loc
+import XehModel.Props.C01
+import XehModel.Proofs.VMSeal
 
 namespace Xeh.C17
 open Xeh Xeh.Compile Xeh.Mach
@@ -62,6 +69,58 @@ theorem runtime_error_ip (np : String → Option Prog) (m : Mach) (w : WF m) (h 
     cases s with
     | fail seg mp r e ne => rw [e, r.ctx, h0]
     | done seg mp n r e => rw [e] at h; exact absurd rfl h
+
+/-- well-formedness (stack floors within the stacks) survives any number of successful steps -/
+theorem stepN_wf (np : String → Option Prog) : ∀ (n : Nat) (m m' : Mach), WF m → C02.stepN np n m = some m' → WF m' := by
+  intro n
+  induction n with
+  | zero => intro m m' w h; cases h; exact w
+  | succ n ih =>
+    intro m m' w h
+    simp only [C02.stepN] at h
+    have hs := step_sealed np m w
+    split at h
+    · rename_i m1 heq
+      rw [heq] at hs
+      exact ih m1 m' hs.wf h
+    · cases h
+
+open Xeh.Structured in
+/-- **a run-time error names the token that failed**, for every program of the structured fragment: compile the tokens
+    with the flow-stack compiler, load the code, run.  If the structural evaluator (no bytecode, no instruction
+    pointer) says that executing the word at token `tok` fails with error `e`, then the VM, after some number of
+    successful steps, executes an instruction that fails with the same `e`, and the debug-map entry at the instruction
+    pointer it is left with — the lookup `last_err_location` performs — is `tok`.  Conditionals, loops, `break`,
+    case arms, calls into definitions (the failing word may be deep inside a called definition, or a recursion),
+    locals: all nestings. -/
+theorem runtime_error_names_its_token (np : String → Option Prog) (toks : List Tok) (m : Mach) (f : Nat)
+    (st : Stmt) (ps' : PState)
+    (hip : m.ctx.ip = 0) (hwf : WF m) (hlim : m.insnLimit = none)
+    (hp : parseS toks { dict := m.dict, heapLen := m.heap.length } = some (st, ps')) (hsize : size st < 2^62) :
+    ∃ s, compileToks toks 0 { dict := m.dict, heapLen := m.heap.length } = .ok s ∧ s.dmap = C01.dmapOf st ∧
+      let m1 : Mach := { m with code := s.code, dict := s.dict,
+                                heap := m.heap ++ List.replicate (s.heapLen - m.heap.length) Cell.nil }
+      match evalS np (tabOf st) f st m1 with
+      | .err e tok _ => ∃ n mv mv', C02.stepN np n m1 = some mv ∧ step np mv = (.err e, mv') ∧
+          s.dmap[mv'.ctx.ip]? = some tok
+      | _ => True := by
+  obtain ⟨s, hc, hd, hrest⟩ := C01.source_means_what_it_says np toks m f st ps' hip hwf hlim hp hsize
+  refine ⟨s, hc, hd, ?_⟩
+  simp only at hrest ⊢
+  split
+  · rename_i e tok m' heq
+    rw [heq] at hrest
+    obtain ⟨n, mv, mv', h1, h2, _, h4⟩ := hrest
+    refine ⟨n, mv, mv', h1, h2, ?_⟩
+    have wv : WF mv := by
+      refine stepN_wf np n _ mv ?_ h1
+      exact ⟨hwf.ds, hwf.rs, hwf.ls, hwf.ss⟩
+    have hip' := runtime_error_ip np mv wv (by rw [h2]; intro h; cases h)
+    rw [h2] at hip'
+    simp only at hip'
+    rw [hip', hd]
+    exact h4
+  all_goals trivial
 
 /-! ### non-vacuity -/
 
